@@ -61,12 +61,38 @@ def _range(r, kn, size):
     return s, s + size
 
 
+def probe_cases(mock):
+    """fixed cases that aim at the places where an overlap / an excess would show if the code were wrong:
+    the caller's chunk of the static path with every ring index (states index = REMAPPED chunk index), the caller's
+    worker of the dynamic/adaptive wait paths, and rendezvous targets of maxThreads + 1"""
+    out = []
+    base = {'chunk': 0, 'minItems': 1, 'rdv': 0, 'reuse': 0}
+    if mock:
+        for ring in (0, 1, 2, -1):
+            for N, g in ((2, 1), (4, 8), (3, 1)):
+                out.append(dict(base, kn=4, s=0, e=1003, mode='s', N=N, maxT=N + 1, g=g, wait=1, ring=ring, exec=2, pre=0))
+        for mode, chunk in (('c', 50), ('a', 0)):
+            for N, maxT in ((3, 4), (3, 3), (2, 2), (5, 3)):
+                out.append(dict(base, kn=5, s=7, e=407, mode=mode, chunk=chunk, N=N, maxT=maxT, g=1, wait=1, ring=-1, exec=2, pre=0,
+                                minItems=40 if mode == 'a' else 1))
+                out.append(dict(base, kn=6, s=-200, e=200, mode=mode, chunk=chunk, N=N, maxT=maxT, g=1, wait=0, ring=-1, exec=3, pre=0,
+                                minItems=40 if mode == 'a' else 1))
+    else:
+        for maxT in (2, 3):
+            for wait in (0, 1):
+                out.append(dict(base, kn=4, s=0, e=40, mode='c', chunk=5, N=4, maxT=maxT, g=1, wait=wait, rdv=maxT + 1))
+                out.append(dict(base, kn=4, s=0, e=64, mode='a', N=4, maxT=maxT, g=1, wait=wait, rdv=maxT + 1, minItems=8))
+                out.append(dict(base, kn=4, s=0, e=1000, mode='s', N=4, maxT=maxT, g=1, wait=wait, rdv=maxT + 1))
+                out.append(dict(base, kn=4, s=0, e=1000, mode='s', N=4, maxT=maxT, g=8, wait=1, rdv=maxT + 1))
+    return out
+
+
 def gen_cases(ctx, n, mock):
     """parallel_for configurations aimed at the case splits of the Plan model: all three chunking modes, both wait
     modes, granularity tails, thread limits around the pool size, small ranges with explicit chunk sizes.
     mock=True adds the instrumented-task-set parameters (ring, exec, reuse, pre)."""
     r = ctx.rng
-    cases = []
+    cases = probe_cases(mock)[:max(0, n // 4)]
     while len(cases) < n:
         kn = r.choice(range(8))
         mode = r.choice(['s', 's', 'a', 'c', 'c'])
@@ -183,7 +209,10 @@ def run_pf_cases(ctx, cases, max_calls=400):
 
 
 def judge(ctx, name, imports, fn_terms):
-    """fn_terms: list of (judge_fn, [terms]); sharded so that no Coq file gets more than ~600 terms.  Returns list of lists."""
+    """fn_terms: list of (judge_fn, [terms]).  One Coq file when the cases are few (coqc start-up dominates), otherwise sharded
+    so that no file gets more than ~600 terms.  Returns list of lists of verdicts (None when Coq failed)."""
+    if sum(len(t) for _, t in fn_terms) <= 900:
+        return pf_common.coq_judge(ctx, name, imports, fn_terms)
     res = []
     for k, (fn, terms) in enumerate(fn_terms):
         vals = []
